@@ -661,3 +661,31 @@ def variant(rng, text: str) -> str:
                 ind = lines[i][: len(lines[i]) - len(lines[i].lstrip())]
                 lines.insert(i + 1, f"{ind}priority {_pick(rng, [1, 200, 800, 1000])}")
     return "\n".join(lines)
+
+
+# ------------------------------------------------------------------ DST-gap projects (for the TZ knob)
+
+DST_GAPS = {  # zone -> (date of the spring-forward day, first skipped local hour)
+    "America/New_York": ("2025-03-09", 2),
+    "America/Havana": ("2025-03-09", 0),
+    "Europe/Berlin": ("2025-03-30", 2),
+    "Australia/Lord_Howe": ("2025-10-05", 2),
+}
+
+
+def gen_dst_project(rng) -> dict:
+    """A project whose task boundaries fall on every hour around a zone's skipped hour; output must not depend on
+    the TZ of the process, so the scenario runs it under exactly that zone."""
+    zone = _pick(rng, sorted(DST_GAPS))
+    day, hour = DST_GAPS[zone]
+    y, m, d = map(int, day.split("-"))
+    d0 = date(y, m, d)
+    start = d0 - timedelta(days=rng.randrange(1, 5))
+    lines = [f'project dst "DST" {start.isoformat()} +2w {{', f"  now {start.isoformat()}", "}",
+             'resource n "Night" { workinghours mon - sun 00:00 - 06:00 }',
+             f'task m0 "M0" {{ start {d0.isoformat()} milestone }}']
+    for i, h in enumerate(sorted({hour, (hour + 1) % 24, max(0, hour - 1), rng.randrange(0, 5)})):
+        lines.append(f'task d{i} "D{i}" {{ start {d0.isoformat()}-{h:02d}:00 duration {rng.randrange(1, 3)}h }}')
+        lines.append(f'task m{i + 1} "M{i + 1}" {{ start {d0.isoformat()}-{h:02d}:{_pick(rng, ["00", "30"])} milestone }}')
+    lines.append(f'task e "E" {{ effort {rng.randrange(2, 6)}h allocate n start {d0.isoformat()}-00:00 }}')
+    return {"text": "\n".join(lines) + "\n", "tags": ["dst"], "kind": "ok", "tz": zone}
